@@ -85,4 +85,20 @@ PROPS = {
         "assumptions": ["%T type name + extension identifies a type mark for locally built errors"],
         "parts": [rapid("is-model", "TestProp", 12000, 240000)],
     },
+    "C02": {
+        "pkg": "c02",
+        "level": "exploration",
+        "level_text": "Generated search with shrinking: for every generated tree e and ~40 references (layers of e, sentinel pool, independent tree, "
+                      "near-equal perturbed copies) Is(e, r) is evaluated locally and again, always at a knowing process, after each of 1-3 hops of e, of r, and "
+                      "of both, where every hop is drawn from {knowing process, process that knows none of e's families, process that knows a random subset}.",
+        "level_note": "Unknowing processes are simulated by registry restriction (build-tag hook). The statement's exemption (local match that exists only through "
+                      "an identity-comparing Is method may vanish once r is transferred) is decided by the independent Is model of C08 evaluated without Is methods. "
+                      "Is is not evaluated *at* an unknowing process (DESIGN.md 6.2).",
+        "technique": "property-based testing (rapid): round-trip oracle on the Is relation, hop sequences mixing knowing and unknowing processes, near-equal reference perturbation",
+        "rule": "rapid-generated trees (boosted: sentinels, Mark, registered Is-method leaf, domains) x references (layers of e, 17 sentinels, independent tree, 3 perturbed "
+                "copies) x hop sequences of length 1-3 (thorough 1-4) over {knowing, all families unknown, random subset unknown}. Non-trivial = at least one reference "
+                "matched before transfer through a non-identity route and at least one near-equal reference did not match. Distinct = hash of the case JSON.",
+        "assumptions": ["registry restriction through the verif hook is a faithful model of a process that lacks those types"],
+        "parts": [rapid("is-transfer", "TestProp", 6000, 100000)],
+    },
 }
